@@ -46,7 +46,7 @@ func TestC10Boundary(t *testing.T) {
 			writeFailLog("C10", msg, hist)
 			rt.Fatalf("VIOLATION C10: %s\nhistory: %s", msg, strings.Join(hist, " ; "))
 		}
-		kind := []string{"mtp-liquidate", "mtp-stoploss", "mtp-takeprofit", "lp-liquidate", "lp-stoploss"}[UniformDraw(rt, "kind", 5)]
+		kind := []string{"mtp-liquidate", "mtp-stoploss", "mtp-takeprofit", "lp-liquidate", "lp-stoploss", "mtp-reopen-after-accrual"}[UniformDraw(rt, "kind", 6)]
 		price0 := sdkmath.LegacyNewDec(5)
 		wallet := func() sdk.Coins { return w.App.BankKeeper.GetAllBalances(ctx, owner.Addr) }
 		if strings.HasPrefix(kind, "mtp") {
@@ -74,6 +74,44 @@ func TestC10Boundary(t *testing.T) {
 			// the open itself must have left the position strictly healthy
 			if h0 := mtps[0].MtpHealth; h0.LTE(sf) {
 				fail("a successful open left the MTP with health %s <= safety factor %s", h0, sf)
+			}
+			if kind == "mtp-reopen-after-accrual" {
+				// "every successful consolidating re-open leaves the position with health strictly above the safety
+				// factor" – for a position that nobody has touched for so long that the interest accrued and not yet paid
+				// is a sizeable part of its debt (1 % … 40 % of the principal; the record is written the way a long
+				// accrual leaves it). The owner re-opens on top; if that succeeds the merged position must be healthy,
+				// with the unpaid interest counted as debt (folding it into the principal must not change the health).
+				m, _ := w.App.PerpetualKeeper.GetMTP(ctx, owner.Addr, id)
+				m.BorrowInterestUnpaidLiability = m.Liabilities.MulRaw(int64(1 + UniformDraw(rt, "intpct", 40))).QuoRaw(100)
+				if err := w.App.PerpetualKeeper.SetMTP(ctx, &m); err != nil {
+					rt.Fatalf("harness: set mtp: %v", err)
+				}
+				re := &perptypes.MsgOpen{Creator: owner.Addr.String(), Position: pos, Leverage: sdkmath.LegacyNewDecWithPrec(int64(11+UniformDraw(rt, "relev", 60)), 1), TradingAsset: ptypes.ATOM,
+					Collateral: sdk.NewInt64Coin(ptypes.BaseCurrency, int64(1_000_000+UniformDraw(rt, "recoll", 500_000_000))), TakeProfitPrice: tp, StopLossPrice: sdkmath.LegacyZeroDec(), PoolId: 1}
+				hist = append(hist, fmt.Sprintf("unpaid interest set to %s of %s; re-open lev=%s coll=%s", m.BorrowInterestUnpaidLiability, m.Liabilities, re.Leverage, re.Collateral))
+				if err, _ := execMsg(w, ctx, re); err != nil {
+					sum.record(fmt.Sprint(hist), true, []string{"mtp-reopen-after-accrual/refused"}, hist)
+					return
+				}
+				after := w.App.PerpetualKeeper.GetAllMTPsForAddress(ctx, owner.Addr)
+				amm, _ := w.App.AmmKeeper.GetPool(ctx, 1)
+				for _, mm := range after {
+					br, _ := ctx.CacheContext()
+					hh, err := w.App.PerpetualKeeper.GetMTPHealth(br, *mm, amm, ptypes.BaseCurrency)
+					if err != nil {
+						continue
+					}
+					folded := *mm
+					folded.Liabilities, folded.BorrowInterestUnpaidLiability = mm.Liabilities.Add(mm.BorrowInterestUnpaidLiability), sdkmath.ZeroInt()
+					if h2, err := w.App.PerpetualKeeper.GetMTPHealth(br, folded, amm, ptypes.BaseCurrency); err == nil && h2.LT(hh) {
+						hh = h2
+					}
+					if hh.LTE(sf) {
+						fail("a successful consolidating re-open left MTP %d with health %s <= safety factor %s (liabilities %s, interest accrued and unpaid %s)", mm.Id, hh, sf, mm.Liabilities, mm.BorrowInterestUnpaidLiability)
+					}
+				}
+				sum.record(fmt.Sprint(hist), true, []string{"mtp-reopen-after-accrual/accepted"}, hist)
+				return
 			}
 			var p sdkmath.LegacyDec
 			var expect bool
